@@ -126,6 +126,23 @@ def check(ctx: Ctx) -> str:
     asg = [n_ for n_ in ast.walk(rt.node) if isinstance(n_, ast.Assign) and any(isinstance(t_, ast.Name) and t_.id == "exc_value" for t_ in n_.targets)]
     ctx.check(all(ast.unparse(a.value) == "t.cast(BaseException, exc_value)" for a in asg), "rewrite_traceback_stack:not-replaced", "debug:rewrite_traceback_stack", "exception object never replaced", "exc_value must not be rebound to another object", rt.loc())
 
+    # the traceback rewriting runs for every exception that leaves a render; what it builds for
+    # the fake frames must be its own: Context.get_all() may return the live parent / vars dict
+    # of a (memoised) template context, and writing the failing frame's locals into it changes
+    # what later renders see
+    gtl = repo.func("debug:get_template_locals")
+    mutated: dict[str, ast.AST] = {}
+    for n_ in ast.walk(gtl.node):
+        if isinstance(n_, ast.Subscript) and isinstance(n_.ctx, (ast.Store, ast.Del)) and isinstance(n_.value, ast.Name):
+            mutated.setdefault(n_.value.id, n_)
+        if isinstance(n_, ast.Call) and isinstance(n_.func, ast.Attribute) and isinstance(n_.func.value, ast.Name) and n_.func.attr in ("pop", "update", "clear", "setdefault", "popitem", "append", "extend", "add"):
+            mutated.setdefault(n_.func.value.id, n_)
+    ctx.need(bool(mutated), "get_template_locals: the dict it fills was not found")
+    for vn_, site in sorted(mutated.items()):
+        ctx.check(astq.fresh_container(gtl.node, ast.Name(id=vn_, ctx=ast.Load())), f"get_template_locals:own:{vn_}", "debug:get_template_locals", f"`{vn_}` is modified but may be a dict of the live context",
+                  f"get_template_locals modifies `{vn_}`, which is not a fresh dict on every path (Context.get_all() returns the context's own parent / vars dict when the other is empty): the locals of the failing frame are written into the live - possibly memoised - context and show up in later renders",
+                  gtl.loc(site))
+
     ctx.rule("R3", "Context.call: the only handler catches StopIteration and protects only the call itself")
     cc = repo.func("runtime:Context.call")
     hs = [h for h in ast.walk(cc.node) if isinstance(h, ast.ExceptHandler)]
